@@ -64,6 +64,9 @@ func (es *ecdsaKeySigner) Sign(rand io.Reader, content []byte) ([]byte, error) {
 // entropy from rand.
 // The resulting signature should follow RFC 8152 section 8.
 func (es *ecdsaKeySigner) SignDigest(rand io.Reader, digest []byte) ([]byte, error) {
+	if err := checkECDSADigest(es.alg, digest); err != nil {
+		return nil, err
+	}
 	r, s, err := ecdsa.Sign(rand, es.key, digest)
 	if err != nil {
 		return nil, err
@@ -100,6 +103,9 @@ func (es *ecdsaCryptoSigner) Sign(rand io.Reader, content []byte) ([]byte, error
 // entropy from rand.
 // The resulting signature should follow RFC 8152 section 8.
 func (es *ecdsaCryptoSigner) SignDigest(rand io.Reader, digest []byte) ([]byte, error) {
+	if err := checkECDSADigest(es.alg, digest); err != nil {
+		return nil, err
+	}
 	sigASN1, err := es.signer.Sign(rand, digest, es.alg.hashFunc())
 	if err != nil {
 		return nil, err
@@ -115,6 +121,17 @@ func (es *ecdsaCryptoSigner) SignDigest(rand io.Reader, digest []byte) ([]byte, 
 
 	// encode signature in the COSE form
 	return encodeECDSASignature(es.key.Curve, sig.R, sig.S)
+}
+
+// checkECDSADigest refuses a digest that is not of the algorithm's hash.
+// crypto/ecdsa takes a digest of any length, keeping the leftmost bits of a
+// long one and padding a short one: without the check an ES256 verifier
+// accepts what was signed over a SHA-512 digest on the same key.
+func checkECDSADigest(alg Algorithm, digest []byte) error {
+	if h := alg.hashFunc(); h.Available() && len(digest) != h.Size() {
+		return fmt.Errorf("%v: digest of %d bytes, want %d", alg, len(digest), h.Size())
+	}
+	return nil
 }
 
 // encodeECDSASignature encodes (r, s) into a signature binary string using the
@@ -176,6 +193,9 @@ func (ev *ecdsaVerifier) Verify(content []byte, signature []byte) error {
 //
 // Reference: https://datatracker.ietf.org/doc/html/rfc8152#section-8.1
 func (ev *ecdsaVerifier) VerifyDigest(digest []byte, signature []byte) error {
+	if checkECDSADigest(ev.alg, digest) != nil {
+		return ErrVerification
+	}
 	// verify signature
 	r, s, err := decodeECDSASignature(ev.key.Curve, signature)
 	if err != nil {
